@@ -64,6 +64,7 @@ def to_script(beh, sid, K, Q, cids):
 
 
 SIMS = [("Tracker_sim_k1q1.cfg", 1, 1, ["c1", "c2"]),
+        ("Tracker_sim_k1q1c3.cfg", 1, 1, ["c1", "c2", "c3"]),
         ("Tracker_sim_k2q1.cfg", 2, 1, ["c1", "c2"]),
         ("Tracker_sim_k2q2.cfg", 2, 2, ["c1", "c2", "c3"])]
 
@@ -77,7 +78,7 @@ def pipeline(ctx, want):
         ctx.tlc("Tracker.tla", "Tracker_mc_thorough.cfg", workers=16, timeout=6000, heap="16g")
     ctx.exhaustive = False
     # GEN
-    per = 70 if ctx.quick() else 1500
+    per = 60 if ctx.quick() else 1200
     scripts = []
     for k, (cfg, K, Q, cids) in enumerate(SIMS):
         r = ctx.tlc("Tracker.tla", cfg, count=False, workers=1, timeout=1500,
